@@ -263,5 +263,13 @@ func (sm *SRGStateMachine) PeerHeartbeatUpdate(peerPriority uint32, peerNodeID s
 		return sm.transitionTo(SRGStateStandby)
 	}
 
+	// Both nodes ended up STANDBY (e.g. the active node re-elected after a
+	// one-sided peer loss and lost on its decremented priority). Nobody is
+	// serving the group, so this is not a preemption: the election winner
+	// takes over regardless of the preempt setting.
+	if sm.state == SRGStateStandby && peerState == SRGStateStandby && sm.winsElection(peerNodeID) {
+		return sm.transitionTo(SRGStateActive)
+	}
+
 	return nil
 }
